@@ -137,7 +137,7 @@ impl TextCorpus {
         // Prefer small and medium files: keep cost per case bounded.
         let bi = if self.files[bi].1.len() > 30_000 && rng.chance(3, 4) { rng.below(n) } else { bi };
         let base = self.files[bi].1.clone();
-        let kind = rng.below(16);
+        let kind = rng.below(17);
         let (name, text): (&'static str, String) = match kind {
             0 => {
                 // Delete a char range.
@@ -309,6 +309,17 @@ impl TextCorpus {
                             &base[t.1..]
                         ),
                     )
+                }
+            }
+            16 => {
+                // Glue a prefix symbol directly in front of a token (`$x`, `@x`, `-x`, `#x`, ...).
+                let toks = self.tokens(bi).clone();
+                if toks.is_empty() {
+                    ("prefix-token", base)
+                } else {
+                    let t = toks[rng.below(toks.len())];
+                    let pre = *rng.pick(&["$", "@", "-", "!", "*", "&", "#", "~", "'", "::", ".", "$$", "r#"]);
+                    ("prefix-token", format!("{}{}{}", &base[..t.0], pre, &base[t.0..]))
                 }
             }
             12 => {
